@@ -67,7 +67,7 @@ class RecLog (object):
   debug = info = warning = warn = error = critical = log = _n
   def exception (self, *a, **k):
     et, ev, tb = sys.exc_info()
-    if et is not None and et is not LineBudget.BudgetExceeded:
+    if et is not None and et is not LineBudget.BudgetExceeded and et is not GeneratorExit:
       self.exc.append(site_of(et, tb))
   def isEnabledFor (self, lvl): return False
 
@@ -736,7 +736,7 @@ def replay (cfg, data):
   w, bad, summ = _execute_and_judge(case, insts)
   inst = insts[case["inst"]]
   lines = ["case: %r (%s)" % (case, inst.name)]
-  lines.append("hostile stream pieces: " + " | ".join("%s:%s" % (p.label, p.data.hex() if p.data else "?") for p in w.pushed[HOSTILE]))
+  lines.append("hostile stream pieces: " + " | ".join("%s:%s" % (p.label, (p.data.hex() if len(p.data) <= 40 else p.data[:16].hex() + "..(%d bytes)" % len(p.data)) if p.data else "?") for p in w.pushed[HOSTILE]))
   lines.append("hostile deliveries: %r" % [(d["cls"], d["closed"]) for d in w.deliv[HOSTILE]])
   lines.append("errors sent on hostile: %r" % [(hex(x), tc) for x, d, tc in w.errs[HOSTILE]])
   lines.append("closed: %r  loop: %s  tripped: %s  selecting: %r" % (w.closed, w.dead or "alive", w.tripped, w.final_sel))
